@@ -22,7 +22,7 @@ func init() {
 		ID:    "C06",
 		Level: "other",
 		Run:   runC06,
-		Explanation: "Per-transition obligations on MVP-7.0, 7.1 and 8.0: R06.1 the per-core line state table is written only by the state setter (called only inside the completion closures handed out with a lock) and by the command-completion callback (to Invalid); R06.2 the transition table extracted from the read-lock / write-lock functions and the request builders equals the MSI table (read@I: shared lock, write-back from a Modified holder, then Shared; read@S: shared lock; read@M: exclusive lock; write@I: exclusive, write-back M / evict S, then Modified; write@S: exclusive, invalidate others, then Modified; write@M: exclusive); R06.3 a write-back snoop writes the line to the next level before removing it from L1 and before completing, an evict snoop removes then completes; R06.5 every per-line table is keyed through one alignment level and L1 insertions are presence-guarded; R06.6 per-line lock counters cannot go negative (acquire/release kinds pair; recorded handles are released with the kind they were acquired with; flush deletes from the table it ranges over). The per-cycle invariants under all request interleavings are NOT decided.",
+		Explanation: "Per-transition obligations on MVP-7.0, 7.1 and 8.0: R06.1 the per-core line state table is written only by the state setter (called only inside the completion closures handed out with a lock) and by the command-completion callback (to Invalid); R06.2 the transition table extracted from the read-lock / write-lock functions and the request builders equals the MSI table (read@I: shared lock, write-back from a Modified holder, then Shared; read@S: shared lock; read@M: exclusive lock; write@I: exclusive, write-back M / evict S, then Modified; write@S: exclusive, invalidate others, then Modified; write@M: exclusive); R06.3 a write-back snoop writes the line to the next level before removing it from L1 and before completing, an evict snoop removes then completes; R06.5 every per-line table is keyed through one alignment level and L1 insertions are presence-guarded; R06.7 the base a line is inserted under in a data cache comes from the alignment function of that cache's line size or from a resident line's boundary (lines are size-aligned); R06.8 a line is inserted in L1 only after a presence test of its base returned false (never two copies of one line); R06.6 per-line lock counters cannot go negative (acquire/release kinds pair; recorded handles are released with the kind they were acquired with; flush deletes from the table it ranges over). The per-cycle invariants under all request interleavings are NOT decided.",
 		Assumptions: []string{"request interleavings are not explored"},
 		Trusted:     []string{"go/types", "the MSI table in checker/c06.go", "address provenance engine"},
 	})
@@ -61,6 +61,8 @@ func runC06(r *Run) {
 	r.floor("R06.2", 27)
 	r.floor("R06.3", 8)
 	r.floor("R06.5", 12)
+	r.floor("R06.7", 3)
+	r.floor("R06.8", 3)
 	r.floor("R06.6", 30)
 	for _, v := range variants(w) {
 		if v.pkg == nil {
@@ -97,11 +99,7 @@ func runC06(r *Run) {
 		ruleTransitionTable(r, v, states)
 		ruleSnoopOrder(r, v)
 		pe := newProvEngine(w, v.pkg)
-		caches := cachesOf(v)
-		byVar := map[*types.Var]*cacheInfo{}
-		for _, c := range caches {
-			byVar[c.field] = c
-		}
+		_, byVar := resolvedCaches(w, v)
 		pe.cacheLine = func(e ast.Expr) int64 {
 			if c := cacheOfExpr(v, byVar, e); c != nil {
 				return c.lineSize
@@ -109,6 +107,7 @@ func runC06(r *Run) {
 			return 0
 		}
 		ruleTableKeys(r, "R06.5", v, pe)
+		ruleL1Insertions(r, v, byVar, pe)
 		_ = info
 	}
 	// R06.6 = R07.4
@@ -552,4 +551,62 @@ func isParamOf(info *types.Info, fd *ast.FuncDecl, id *ast.Ident) bool {
 		}
 	}
 	return false
+}
+
+// ruleL1Insertions: R06.7 (size-aligned bases) and R06.8 (no second copy) at every
+// insertion into a data cache of a multi-core variant.
+func ruleL1Insertions(r *Run, v *variant, byVar map[*types.Var]*cacheInfo, pe *provEngine) {
+	info := v.info
+	w := r.W
+	pe.fieldsNeutral = false
+	for _, f := range v.pkg.Syntax {
+		for _, d := range f.Decls {
+			fd, ok := d.(*ast.FuncDecl)
+			if !ok || fd.Body == nil {
+				continue
+			}
+			ast.Inspect(fd.Body, func(n ast.Node) bool {
+				call, ok := n.(*ast.CallExpr)
+				if !ok {
+					return true
+				}
+				m := lruMethod(info, call)
+				if m != "PushLine" && m != "PushLineWithEvictionWarning" {
+					return true
+				}
+				c := cacheOfExpr(v, byVar, call.Fun.(*ast.SelectorExpr).X)
+				if c == nil || !c.dirty {
+					return true
+				}
+				site := fmt.Sprintf("%s.%s:%s(%s)", v.rel, declName(fd), m, c.field.Name())
+				p := pe.of(call.Args[0], 0)
+				want := fmt.Sprintf("align:%d", c.lineSize)
+				good := p.onlyPrefix(want, "boundary") && len(p) > 0
+				for k := range p {
+					if strings.HasPrefix(k, "align:") && k != want {
+						good = false
+					}
+				}
+				r.check(good, "R06.7", site+":base", call.Pos(), "the base a line is inserted under comes from the alignment function of the cache's line size (%d) or from a resident line's boundary; provenance: {%s}", c.lineSize, p)
+				if m == "PushLineWithEvictionWarning" {
+					guarded := false
+					for _, st := range fd.Body.List {
+						if st.Pos() > call.Pos() {
+							break
+						}
+						if is, ok := st.(*ast.IfStmt); ok && terminates(is.Body.List) {
+							if w.reaches(info, is.Cond, func(fn *types.Func) bool {
+								sig := fn.Type().(*types.Signature)
+								return (fn.Name() == "Get" || fn.Name() == "GetCacheLine") && sig.Recv() != nil && isCompType(sig.Recv().Type(), "LRUCache")
+							}) {
+								guarded = true
+							}
+						}
+					}
+					r.check(guarded, "R06.8", site+":absent", call.Pos(), "a line is inserted only after a presence test of its base returned false (no second copy of a line in one L1)")
+				}
+				return true
+			})
+		}
+	}
 }
